@@ -35,6 +35,29 @@ class PrimFailure(Exception):
         self.k = k
 
 
+class FalsyFailure(PrimFailure):
+    """A perfectly good exception object that happens to be falsy (an empty container-like error)."""
+
+    def __bool__(self):
+        return False
+
+    def __len__(self):
+        return 0
+
+
+class ArgFailure(PrimFailure):
+    """An exception class whose constructor needs more than .args gives back, and which carries state."""
+
+    def __init__(self, k, detail):
+        PrimFailure.__init__(self, k)
+        self.detail = detail
+        self.args = (f"invocation {k}",)
+
+
+def make_failure(k):
+    return [PrimFailure(k), FalsyFailure(k), ArgFailure(k, {"invocation": k})][k % 3]
+
+
 def mp_module():
     import queasars.circuit_evaluation.mutex_primitives as mp
 
@@ -51,12 +74,46 @@ def canon_obs(x):
 
 
 def tag_of(p):
-    if isinstance(p, int):
-        return p
+    if isinstance(p, int) or (hasattr(p, "__index__") and not hasattr(p, "circuit")):
+        return int(p)
     return int(p.circuit.metadata["tag"])
 
 
 # ----------------------------------------------------------------------------- fake primitives
+def as_container(tags, kind):
+    """Unusual but legal containers for the runner's `pubs` (it uses len() and list.extend())."""
+    if kind == "tuple":
+        return tuple(tags)
+    if kind == "deque":
+        import collections
+
+        return collections.deque(tags)
+    if kind == "ndarray":
+        import numpy as np
+
+        a = np.empty(len(tags), dtype=object)
+        for j, t in enumerate(tags):
+            a[j] = t
+        return a
+    return tags
+
+
+class LazyPubs:
+    """A reusable Iterable that reads shared state: what it yields is what its source list holds at the time of iteration.
+    The caller changes the source right after run() has returned.  An iteration from another thread than the caller's
+    (i.e. after run() handed the iterable on) waits until the caller has done so: the adverse order is forced."""
+
+    def __init__(self, src):
+        self.src = src
+        self.caller = threading.get_ident()
+        self.changed = threading.Event()
+
+    def __iter__(self):
+        if threading.get_ident() != self.caller:
+            self.changed.wait(3)
+        return iter(list(self.src))
+
+
 class FakeResult:
     """Runner level: what the k-th invocation returns; item i = (k, tag of pub i)."""
 
@@ -102,7 +159,7 @@ class Fake:
             # the primitive's run() raises at submission: no job object is ever returned
             self.events.append(("end", k))
             self.status[k] = False
-            e = self.exceptions[k] = PrimFailure(k)
+            e = self.exceptions[k] = make_failure(k)
             raise e
         self.in_use += 1
         if self.on_begin is not None:
@@ -139,7 +196,7 @@ class FakeJob:
         fk.events.append(("end", self.k))
         if fail is True:
             fk.status[self.k] = False
-            e = fk.exceptions[self.k] = PrimFailure(self.k)
+            e = fk.exceptions[self.k] = make_failure(self.k)
             raise e
         fk.status[self.k] = True
         if fk.level == "runner":
@@ -330,7 +387,7 @@ class Run:
                 for ci, tags in enumerate(calls):
                     try:
                         r = self.runners[targets.get(f"{i}:{ci}", 0)] if self.runners else None
-                        r.run(list(tags))  # the outcome is recorded by the instrumented run()
+                        r.run(as_container(list(tags), (self.cfg.get("containers") or {}).get(f"{i}:{ci}")))  # outcome recorded by the instrumented run()
                     except coop.CoopAbort:
                         raise
                     except AttributeError as e:
@@ -369,14 +426,35 @@ class Run:
                     # what the wrapped primitive must see for this pub: its own shots/precision, else the call's keyword
                     self.expected[t] = (mine if mine is not None else key, tuple(val), obs_c)
                 key = (self.cfg.get("keys") or {}).get(f"{i}:{ci}")
+                lazy = (self.cfg.get("lazy") or {}).get(f"{i}:{ci}")
+                arg = pubs
+                if lazy == "iterable":
+                    arg = LazyPubs(pubs)
+                elif lazy == "generator":
+                    arg = (p_ for p_ in pubs)
                 try:
-                    if key is None:
+                    if lazy:
+                        kw = {} if key is None else ({"shots": key} if self.level == "sampler" else {"precision": key})
+                        job = self.wrapper.run(arg, **kw)
+                        # the caller reuses its list right after run() returned, before result()
+                        foreign = QuantumCircuit(1, 1 if self.level == "sampler" else 0, metadata={"tag": 9000 + 10 * i + ci})
+                        foreign.rx(0.5, 0)
+                        if self.level == "sampler":
+                            foreign.measure(0, 0)
+                            pubs[:] = [foreign] + pubs[:-1]
+                        else:
+                            pubs[:] = [(foreign, SparsePauliOp("Z"))] + pubs[:-1]
+                        if isinstance(arg, LazyPubs):
+                            arg.changed.set()
+                        res = job.result()
+                    elif key is None:
                         job = self.wrapper.run(pubs)
                     elif self.level == "sampler":
                         job = self.wrapper.run(pubs, shots=key)
                     else:
                         job = self.wrapper.run(pubs, precision=key)
-                    res = job.result()
+                    if not lazy:
+                        res = job.result()
                 except coop.CoopAbort:
                     raise
                 except BaseException as e:
@@ -1320,6 +1398,43 @@ def run_property(ctx, pid):
             cfg = dict(level="runner", linger=rep % 2, calls=gen_calls(rng, nthreads=nthr, max_calls=1 + rep % 2, max_pubs=2))
             for z in range(nthr):
                 ex.account(execute(cfg, freeze_at_policy(rng, z, kind, obj, 1, p_fail=0.0, base="rr"), faults=False), "freeze-member")
+    # ---- unusual but legal containers for the runner's pubs (numpy object array, tuple, deque), then ordinary calls
+    for k, kind in enumerate(["ndarray", "tuple", "deque"] * ctx.n(2, 8)):
+        nthr = 1 + k % 3
+        calls = gen_calls(rng, nthreads=nthr, max_calls=3, max_pubs=3)
+        calls[0][0] = list(range(800, 802 + k % 2))  # at least two pubs in the unusual container
+        cfg = dict(level="runner", linger=k % 2, calls=calls, containers={"0:0": kind})
+        if k % 2:
+            cfg["containers"][f"{nthr - 1}:{len(calls[nthr - 1]) - 1}"] = kind
+        ex.account(execute(cfg, [round_robin_policy(), random_policy(rng, p_fail=pf / 2)][k % 2], faults=faults), "containers")
+    # ---- wrapper level: callers that hand over a lazily evaluated / reusable Iterable and change its source right after
+    #      run() has returned: the job must answer for the pubs as they were when run() was called
+    for k in range(ctx.n(8, 60)):
+        cfg = dict(level=["sampler", "estimator"][k % 2], linger=k % 3 == 0, calls=gen_calls(rng, nthreads=1 + k % 3, max_calls=2, max_pubs=3))
+        cfg["lazy"] = {f"{a}:{b}": ["iterable", "generator"][(a + b + k) % 2] for a, th in enumerate(cfg["calls"]) for b, c in enumerate(th) if c and (a + b + k) % 3 != 2}
+        ex.account(execute(cfg, [round_robin_policy(), random_policy(rng)][k % 2], faults=False), "lazy-iterable")
+    # ---- process environment: the failure scenarios again with warnings turned into errors and numpy raising on
+    #      floating point problems (runner level: no third-party code runs under these settings); restored afterwards
+    if faults:
+        import warnings as _w
+
+        import numpy as _np
+
+        old_err = _np.seterr(all="raise")
+        try:
+            with _w.catch_warnings():
+                _w.simplefilter("error")
+                for fail_at in ([0], [1], [0, 1]):
+                    cfg = dict(level="runner", linger=0, calls=[[[1], [2, 3]], [[4, 5], [6]], [[7], []]])
+                    ex.account(execute(cfg, round_robin_policy(fail_at=fail_at)), "env-warnings-error")
+                    ex.account(execute(cfg, round_robin_policy(fail_submit_at=fail_at)), "env-warnings-error")
+                    cfg1 = dict(level="runner", linger=1, calls=[[[1], [2], [3]]])
+                    ex.account(execute(cfg1, round_robin_policy(fail_at=fail_at)), "env-warnings-error")
+                for k in range(ctx.n(6, 40)):
+                    cfg = dict(level="runner", linger=k % 2, calls=gen_calls(rng, nthreads=2 + k % 2, max_calls=2))
+                    ex.account(execute(cfg, random_policy(rng, p_fail=0.5)), "env-warnings-error")
+        finally:
+            _np.seterr(**old_err)
     # ---- two runner instances alive in one schedule: independent (every call goes to one of them) and nested (the primitive
     #      of the first uses the second while it executes a batch).  Locks are per instance: neither may block the other.
     for i in range(ctx.n(16, 200)):
@@ -1609,16 +1724,29 @@ def check_installed(ctx):
 
     mp = mp_module()
     expect = {("pool", True): "BatchingMutex", ("pool", False): "", ("dask", True): "Mutex", ("dask", False): ""}
-    for ex_kind in ("pool", "dask"):
+    expect.update({("pool-sub", m): expect[("pool", m)] for m in (True, False)})
+    expect.update({("dask-sub", m): expect[("dask", m)] for m in (True, False)})
+
+    class CountingPool(ThreadPoolExecutor):  # a proper subclass, as users write them for logging / accounting
+        def submit(self, *a, **k):
+            self.submitted = getattr(self, "submitted", 0) + 1
+            return super().submit(*a, **k)
+
+    class LoggingClient(Client):
+        pass
+
+    for ex_kind in ("pool", "dask", "pool-sub", "dask-sub"):
         for mutual in (True, False):
             for with_est in (True, False):
-                pool = ThreadPoolExecutor(max_workers=1) if ex_kind == "pool" else Client.__new__(Client)  # isinstance is all the constructor looks at
+                # (no cluster is started: the constructor only looks at the executor's class)
+                pool = {"pool": lambda: ThreadPoolExecutor(max_workers=1), "pool-sub": lambda: CountingPool(max_workers=1),
+                        "dask": lambda: Client.__new__(Client), "dask-sub": lambda: LoggingClient.__new__(LoggingClient)}[ex_kind]()
                 raw_s, raw_e = StatevectorSampler(), StatevectorEstimator()
                 try:
                     cfg = eam.EvolvingAnsatzMinimumEigensolverConfiguration(
                         population_initializer=lambda n: None, evolutionary_operators=[], configured_sampler=ConfiguredSamplerV2(raw_s, 10),
                         configured_estimator=ConfiguredEstimatorV2(raw_e, 0.1) if with_est else None, pass_manager=None, max_generations=1,
-                        max_circuit_evaluations=None, termination_criterion=None, parallel_executor=pool, mutually_exclusive_primitives=mutual)
+                        max_circuit_evaluations=None, termination_criterion=None, parallel_executor=pool, **({} if mutual else {"mutually_exclusive_primitives": False}))  # True is the default
                     eam.EvolvingAnsatzMinimumEigensolver(cfg)
                     chain_s = []
                     x = cfg.configured_sampler.sampler
@@ -1635,7 +1763,7 @@ def check_installed(ctx):
                     ctx.violation("oracle", "installed-exception", f"solver constructor raised {type(e).__name__}: {e}", dict(installed=[ex_kind, mutual, with_est]))
                     continue
                 finally:
-                    if ex_kind == "pool":
+                    if ex_kind.startswith("pool"):
                         pool.shutdown(wait=False)
                 w = expect[(ex_kind, mutual)]
                 want_s = ["TranspilingSamplerV2"] + ([w + "Sampler"] if w else [])
@@ -1795,3 +1923,87 @@ def check_installed_prewrapped(ctx):
                 ctx.violation("oracle", "shared-wrapper-overlap", f"two solvers configured with one shared Mutex{kind.capitalize()} (mutually_exclusive_primitives={mutual}) used from two threads: {st['overlaps']} of {st['uses']} run() calls of the wrapped primitive began while another was in progress", case)
             elif st["errors"]:
                 ctx.violation("oracle", "shared-wrapper-error", f"two solvers sharing a pre-wrapped {kind}: {st['errors'][0]}", case)
+
+
+# ----------------------------------------------------------------------------- copies of a mutex wrapper in one process
+_RESOURCE = dict(in_use=0, overlaps=0, uses=0)
+_RESOURCE_GUARD = threading.Lock()
+
+
+class SharedResourcePrimitive:
+    """Stands for ONE process-wide resource (a device connection): every copy, however it was made, uses the same one."""
+
+    def run(self, pubs, *a, **kw):
+        import time as _time
+
+        with _RESOURCE_GUARD:
+            if _RESOURCE["in_use"]:
+                _RESOURCE["overlaps"] += 1
+            _RESOURCE["in_use"] += 1
+            _RESOURCE["uses"] += 1
+        try:
+            _time.sleep(0.002)
+        finally:
+            with _RESOURCE_GUARD:
+                _RESOURCE["in_use"] -= 1
+        return ("job",)
+
+    def __reduce__(self):
+        return (SharedResourcePrimitive, ())
+
+
+def blackbox_copies(ctx, seconds=0.2):
+    """C07: MutexSampler/MutexEstimator pickled / cloudpickled / deep-copied several times into the SAME process (as dask
+    does for its worker threads) and the copies used concurrently by different threads: on HEAD every copy carries the
+    same SerializableLock token and therefore the same underlying lock, so exclusion holds across copies."""
+    import copy
+    import pickle
+    import time as _time
+
+    import cloudpickle
+
+    mp = restore_real()
+    methods = {"pickle": lambda w: pickle.loads(pickle.dumps(w)), "cloudpickle": lambda w: cloudpickle.loads(cloudpickle.dumps(w)), "deepcopy": copy.deepcopy}
+    report = {}
+    for kind in ("MutexSampler", "MutexEstimator"):
+        for name, rt in methods.items():
+            case = dict(blackbox=f"{kind} copies via {name}")
+            errors = []
+            try:
+                w = getattr(mp, kind)(SharedResourcePrimitive())
+                c1 = rt(w)
+                copies = [w, c1, rt(w), rt(c1)]  # copies and a copy of a copy
+                with _RESOURCE_GUARD:
+                    _RESOURCE.update(in_use=0, overlaps=0, uses=0)
+                stop = _time.time() + seconds
+                barrier = threading.Barrier(len(copies))
+
+                def body(c):
+                    try:
+                        barrier.wait(5)
+                    except Exception:
+                        pass
+                    while _time.time() < stop:
+                        try:
+                            c.run(["pub"])
+                        except Exception as e:
+                            errors.append(repr(e)[:200])
+                            break
+
+                ths = [threading.Thread(target=body, args=(c,), daemon=True) for c in copies]
+                for t in ths:
+                    t.start()
+                for t in ths:
+                    t.join(20)
+            except Exception as e:
+                errors.append("setup: " + repr(e)[:200])
+            with _RESOURCE_GUARD:
+                uses, ov = _RESOURCE["uses"], _RESOURCE["overlaps"]
+            report[f"{kind}:{name}"] = dict(uses=uses, overlaps=ov, errors=errors[:1])
+            ctx.case(["copies", kind, name], True)
+            ctx.tally("blackbox:copies")
+            if ov:
+                ctx.violation("oracle", "copies-overlap", f"{kind}: four copies made by {name} in one process, each used by its own thread: {ov} of {uses} uses of the one shared primitive began while another was in progress (the copies do not share the lock)", case)
+            elif errors:
+                ctx.violation("oracle", "copies-error", f"{kind} copies via {name}: {errors[0]}", case)
+    ctx.notes["blackbox_copies"] = report
